@@ -5,6 +5,7 @@ builds its symbolic inputs, calls `ex.call(...)` on MIR functions and records wh
 it wants in `ex.out`. Branch feasibility and all property queries go to z3.
 """
 import functools
+import itertools
 import os
 import re
 import time
@@ -162,6 +163,8 @@ class Explorer:
             i = alts[idx]
             self.pc.append(simp[i])
             self.solver.add(simp[i])
+            if getattr(self, 'oracle', False) and not free:
+                self.ops.append({'kind': 'branch', 'out': i, 'cond': simp[i]})
             return i
         if self.split_depth is not None and len(self.trail) >= self.split_depth:
             raise SplitPoint()
@@ -187,6 +190,8 @@ class Explorer:
         i = feas[0]
         self.pc.append(simp[i])
         self.solver.add(simp[i])
+        if getattr(self, 'oracle', False) and not free:
+            self.ops.append({'kind': 'branch', 'out': i, 'cond': simp[i]})
         return i
 
     def choose_bool(self, cond) -> bool:
@@ -384,6 +389,13 @@ class Explorer:
             v.cell.v = MOVED
             self.drop_value(inner)
             return
+        if isinstance(v, ArcV) and getattr(self, 'oracle', False):
+            inner = v.cell.v
+            k = self.nondet(2, 'arc_dec')
+            self.ops.append({'kind': 'arc_dec', 'out': ['zero', 'nonzero'][k], 'label': inner.label})
+            if k == 0:
+                self.drop_value(inner.value.v)
+            return
         if isinstance(v, ArcV):
             inner = v.cell.v
             if not isinstance(inner, ArcInner):
@@ -413,11 +425,15 @@ class Explorer:
 CONST_INT = re.compile(r'^(-?\d+)_(u8|u16|u32|u64|u128|usize|i8|i16|i32|i64|i128|isize)$')
 
 
+_frame_serial = itertools.count(1)
+
+
 class Frame:
     def __init__(self, ex: Explorer, f: Func):
         self.ex = ex
         self.f = f
         self.locals: Dict[int, Cell] = {}
+        self.serial = next(_frame_serial)      # NOT id(self): ids are reused after garbage collection
 
     def cell(self, n: int) -> Cell:
         c = self.locals.get(n)
@@ -838,10 +854,13 @@ class Frame:
         self.unwinding = None
         while True:
             blk = f.blocks[bb]
-            key = (id(self), f.name, bb)
+            key = (self.serial, f.name, bb)
             ex.visit_count[key] = ex.visit_count.get(key, 0) + 1
             if ex.visit_count[key] > ex.loop_bound:
                 raise PathCut('loop bound %d exceeded at %s %s' % (ex.loop_bound, f.name, bb))
+            if getattr(ex, 'loop_cut', False) and ex.visit_count[key] == 2:
+                from .queue_extract import LoopBack
+                raise LoopBack(f.name, bb)
             for st in blk.stmts:
                 ex.stats.steps += 1
                 if st.kind == 'nop':
